@@ -508,6 +508,15 @@ func generate(c *Ctx) []Replay {
 	add("where", []byte(`msg LIKE "[a"`), []byte("m"), nil)
 	add("where", []byte(`fields:a LIKE "[a"`), []byte("m"), []byte{1, 'a', 1, 'b'})
 	add("where", []byte(`msg LIKE "a*"`), []byte("abc"), nil)
+	// every kind of condition the builder must refuse at every position of OR chains, AND chains, negated and
+	// nested groups (an error of ANY operand must reach the caller; otherwise the text is accepted with a nil
+	// function inside the closure and the first evaluation that reaches it kills the server goroutine)
+	nrej := 0
+	for _, t := range whereRejectTexts() {
+		add("where", []byte(t), []byte("hello a"), []byte{1, 'a', 1, 'b'})
+		nrej++
+	}
+	c.Note("where reject shapes", fmt.Sprintf("%d texts = %d unevaluable conditions x %d positions/shapes + controls; each evaluated on %d events", nrej, len(whereBad), len(whereShapes), 1+len(whereExtraEvents)))
 
 	// -- write packets
 	evPool := func() []apiEv {
@@ -798,6 +807,12 @@ var lqlTemplates = []string{
 	"CREATE PIPE @", "CREATE PIPE p FROM @", "CREATE PIPE p FROM a=@", "CREATE PIPE p WHERE ts < @", "CREATE PIPE p WHERE msg like @", "CREATE PIPE p FROM a=b WHERE fields:a contains @",
 	"DELETE PIPE @", "DELETE @",
 	"ts > @", "ts < @ OR ts >= @", "a = @", "{a=@}",
+	// an operand the builder refuses next to operands that are fine: first, middle, last of OR / AND chains, negated, nested
+	"SELECT WHERE ts < @ OR msg contains m", "SELECT WHERE msg contains zz OR ts < @", "SELECT WHERE msg contains zz OR ts < @ OR fields:a = b",
+	"SELECT WHERE msg like @ OR fields:a = b", "SELECT WHERE fields:a = c OR lower(fields:a) like @", "SELECT WHERE msg contains m AND msg like @", "SELECT WHERE msg like @ AND msg contains m",
+	"SELECT WHERE @ = 1 OR msg contains m", "SELECT WHERE msg contains zz OR @ = 1", "SELECT WHERE NOT (@ = 1 OR msg contains m)", "SELECT WHERE msg contains m AND (fields:a = c OR NOT ts >= @)",
+	"CREATE PIPE p WHERE msg like @ OR msg contains m", "CREATE PIPE p FROM a=b WHERE ts < @ OR fields:a = b", "msg like @ OR msg contains m", "NOT ts < @ OR msg contains m", "foo = @ OR msg contains m",
+	"SELECT FROM c like @ OR a=b", "SELECT FROM a=x OR c like @", "SELECT FROM a=b AND NOT (c like @ OR a=b)", "SHOW PARTITIONS c like @ OR a=b",
 }
 
 var lqlEdgeLits = []string{
@@ -822,4 +837,34 @@ func envChecks(c *Ctx) {
 		}
 	}
 	c.Note("non-ascii runes whose lower case is ascii (model assumes exactly U+0130->i, U+212A->k)", ascii)
+}
+
+// the `where` kind's reject stream: B = a condition that passes the grammar and that BuildWhereExpFunc must refuse,
+// G1..G3 = conditions that are fine (true on some of the events the closure is evaluated on, false on others, so
+// that a closure that was accepted is really called at every position: || and && short-circuit)
+var whereBad = []string{
+	`foo = 1`, `limit = 5`, `fields: = 1`, `name = app`, `ts < "yesterday"`, `ts = "2019-01-01T00:00:00Z"`, `ts contains 5`,
+	`msg like "["`, `lower(fields:a) LIKE "[a"`, `msg = "a"`, `msg >= a`, `trim(msg) contains "a"`, `upper(fields:a, msg) = "B"`, `upper(lower()) = 1`,
+}
+
+var whereShapes = []string{
+	"B",
+	"B OR G1", "G1 OR B", "G2 OR B", "B OR G1 OR G2", "G1 OR B OR G2", "G1 OR G2 OR B", "G2 OR G3 OR B",
+	"B AND G1", "G1 AND B", "G2 AND B", "B AND G1 AND G2", "G1 AND B AND G2", "G1 AND G3 AND B",
+	"NOT B", "NOT B OR G1", "G2 OR NOT B", "G1 AND NOT B", "NOT B AND G1",
+	"(B)", "((B)) OR G1", "G2 OR ((B))", "(B OR G1) AND G3", "(G2 OR B) AND G3", "G1 AND (G2 OR B)", "G1 AND (B OR G2)",
+	"G2 OR (B AND G1)", "G2 OR (G1 AND B)", "NOT (B OR G1)", "NOT (G2 OR B)", "NOT (G1 AND B) OR G2", "G2 OR NOT (G1 AND B)",
+	"G2 OR NOT (G2 OR B)", "B AND G1 OR G2", "G1 AND B OR G2", "G2 OR G1 AND B", "G2 OR B AND G1", "G3 AND (G1 OR (G2 OR (B)))",
+	"NOT (NOT (B)) OR G1", "G2 OR NOT (NOT (G2 OR NOT B))",
+}
+
+func whereRejectTexts() []string {
+	good := strings.NewReplacer("G1", `msg contains "a"`, "G2", `fields:a = b`, "G3", `ts > 0`)
+	var out []string
+	for _, b := range append(append([]string{}, whereBad...), `msg prefix "h"` /* control: a condition that is fine */) {
+		for _, sh := range whereShapes {
+			out = append(out, good.Replace(strings.Replace(sh, "B", b, 1)))
+		}
+	}
+	return out
 }
